@@ -22,7 +22,10 @@ func C09(c *core.Ctx) {
 		if fn.Pkg == nil || !strings.HasPrefix(fn.Pkg.Pkg.Path(), core.ModPath+"/fw") {
 			continue
 		}
-		for _, ci := range core.FindCallsDeep(fn, idSendPacket, core.CalleeID{Pkg: "fw/face", Recv: "*", Name: "SendPacket"}) {
+		// each call site once, in its own function; the gate may sit in the caller of a
+		// private helper, so the root is the outermost function the site belongs to
+		root := core.RootOf(fn)
+		for _, ci := range core.FindCalls(fn, idSendPacket, core.CalleeID{Pkg: "fw/face", Recv: "*", Name: "SendPacket"}) {
 			nSites++
 			c.Sites++
 			c.Funcs[core.FuncName(fn)] = true
@@ -41,7 +44,7 @@ func C09(c *core.Ctx) {
 			nl := atomNonLocal(recv)
 			lh := atomLocalhostName(pkt, nil)
 			ne := atomNonEmptyName(pkt, nil)
-			res := core.GateDeep(fn, []ssa.Instruction{ci}, core.Lit{A: nl}, core.Lit{A: ne}, core.Lit{A: lh})
+			res := core.GateDeep(root, []ssa.Instruction{ci}, core.Lit{A: nl}, core.Lit{A: ne}, core.Lit{A: lh})
 			if res.OK && res.PerLit[0] > 0 && res.PerLit[2] > 0 {
 				c.Ok("R9.1", key, c.Pos(ci), fmt.Sprintf("drop gate nonlocal(recv)∧nonempty(name)∧localhost(name) found (%d pass edges); SendPacket unreachable once they are removed", res.PassEdges))
 			} else if res.OK {
